@@ -107,3 +107,103 @@ Definition corr_tree (c : tcase) : bool :=
   oresp_eqb (t_obs c) (oresp_of (tree_fr CQ_ops CQ_cx (t_e c) (t_u c))).
 Definition holds_tree (c : tcase) : bool :=
   oresp_eqb (t_obs c) (oresp_of (tree_spec CQ_ops CQ_cx (t_e c) (t_u c))).
+
+(* ---- histories on one LinearFilter object (calls and in-place edits) ---- *)
+Definition resp_eqb (a b : resp CQ) : bool :=
+  match a, b with Nan, Nan => true | Val x, Val y => cq_eqb x y | _, _ => false end.
+Definition hobs_eqb (a b : @hobs CQ) : bool :=
+  match a, b with
+  | ORun x, ORun y => olist_eqb x y
+  | OImp x d, OImp y e => olist_eqb x y && olist_eqb d e
+  | OFr x, OFr y => resp_eqb x y
+  | OEdit, OEdit => true
+  | _, _ => false
+  end.
+(* h_b / h_a: the constructor arguments; h_ops: the history; h_obs: one observation per op *)
+Record hcase := HC { h_b : list CQ; h_a : list CQ; h_u : CQ; h_ops : list (@hop CQ); h_obs : list (@hobs CQ) }.
+Definition corr_hist (c : hcase) : bool :=
+  match lf_make CQ_ops (h_b c) (h_a c) with
+  | None => false
+  | Some f => list_eqb hobs_eqb (h_obs c)
+                (hist_run CQ_ops CQ_cx f (h_u c) (cexp_input CQ_cx (h_u c)) (impulse CQ_ops) (h_ops c))
+  end.
+
+(* the text, on the CURRENT contents of the object: freq_response is the ratio of the sums of
+   the stored terms; the time domain agrees with it *)
+Definition h_now (f : @lfilter CQ) (u : CQ) : resp CQ :=
+  let d := psum CQ_ops CQ_cx (snd f) u in
+  if cq_eqb d (c0 CQ_ops) then Nan else Val (cdiv CQ_ops (psum CQ_ops CQ_cx (fst f) u) d).
+Definition max_pow (p : list (Z * CQ)) : Z := fold_left Z.max (map fst p) 0%Z.
+Definition hop_holds (f : @lfilter CQ) (u : CQ) (o : @hop CQ) (ob : @hobs CQ) : bool :=
+  match o, ob with
+  | HRun len, ORun None => true
+  | HRun len, ORun (Some ys) =>
+      match h_now f u with
+      | Nan => true
+      | Val h =>
+        let ord := Z.to_nat (max_pow (fst f)) in
+        let xs := cexp_input CQ_cx u len in
+        Nat.eqb (length ys) len &&
+        forallb (fun n => cq_eqb (nth n ys (c0 CQ_ops)) (cmul CQ_ops h (nth n xs (c0 CQ_ops)))) (seq ord (len - ord))
+      end
+  | HImp L, OImp _ None => true
+  | HImp L, OImp _ (Some d) =>
+      match h_now f u with
+      | Nan => true
+      | Val h => if (max_pow (fst f) <? Z.of_nat L)%Z then list_eqb cq_eqb d [h] else true
+      end
+  | HFr, OFr r => resp_eqb r (h_now f u)
+  | HSetNum _ _, OEdit | HSetDen _ _, OEdit | HNewNum _, OEdit => true
+  | _, _ => false
+  end.
+Fixpoint hist_holds (f : @lfilter CQ) (u : CQ) (ops : list (@hop CQ)) (obs : list (@hobs CQ)) : bool :=
+  match ops, obs with
+  | [], [] => true
+  | o :: r, ob :: s => hop_holds f u o ob && hist_holds (hop_edit CQ_ops f o) u r s
+  | _, _ => false
+  end.
+Definition holds_hist (c : hcase) : bool :=
+  match lf_make CQ_ops (h_b c) (h_a c) with
+  | None => false
+  | Some f => hist_holds f (h_u c) (h_ops c) (h_obs c)
+  end.
+
+(* ---- histories on one CascadeFilter / ParallelFilter object ---- *)
+Inductive olobs := BLFr (r : oresp) | BLEdit | BLIndexError.
+Definition lobs_eqb (a : olobs) (b : @lobs CQ) : bool :=
+  match a, b with
+  | BLFr x, OLFr y => oresp_eqb x (oresp_of y)
+  | BLEdit, OLEdit => true
+  | BLIndexError, OLIndexError => true
+  | _, _ => false
+  end.
+Fixpoint list_eqb2 {A B : Type} (e : A -> B -> bool) (a : list A) (b : list B) : bool :=
+  match a, b with
+  | [], [] => true
+  | x :: a', y :: b' => e x y && list_eqb2 e a' b'
+  | _, _ => false
+  end.
+Record lcase := LC { l_cas : bool; l_items : list (@ftree CQ); l_u : CQ; l_ops : list (@lop CQ); l_obs : list olobs }.
+Definition corr_lhist (c : lcase) : bool :=
+  list_eqb2 lobs_eqb (l_obs c) (lhist_run CQ_ops CQ_cx (l_cas c) (l_items c) (l_u c) (l_ops c)).
+Fixpoint lhist_holds (cas : bool) (l : list (@ftree CQ)) (u : CQ) (ops : list (@lop CQ)) (obs : list olobs) : bool :=
+  match ops, obs with
+  | [], [] => true
+  | o :: r, ob :: s =>
+    let (l', m) := lop_step CQ_ops CQ_cx cas l u o in
+    match o, ob with
+    | LFr, BLFr x => oresp_eqb x (oresp_of (tree_spec CQ_ops CQ_cx (if cas then TCas l else TPar l) u))
+    | _, _ => lobs_eqb ob m
+    end && lhist_holds cas l' u r s
+  | _, _ => false
+  end.
+Definition holds_lhist (c : lcase) : bool := lhist_holds (l_cas c) (l_items c) (l_u c) (l_ops c) (l_obs c).
+
+(* ---- several dft calls sharing their frequency objects ---- *)
+Record dhcase := DH { dh_freqs : list CQ; dh_calls : list (list CQ * bool * option (list CQ)) }.
+Definition corr_dhist (c : dhcase) : bool :=
+  forallb (fun x => match x with (blk, norm, ob) =>
+             option_eqb (list_eqb cq_eqb) ob (dft CQ_ops CQ_cx blk (dh_freqs c) norm) end) (dh_calls c).
+Definition holds_dhist (c : dhcase) : bool :=
+  forallb (fun x => match x with (blk, norm, ob) =>
+             option_eqb (list_eqb cq_eqb) ob (dft_spec CQ_ops CQ_cx blk (dh_freqs c) norm) end) (dh_calls c).
